@@ -19,6 +19,9 @@ from .stmts import gsub
 REPO = pyvc.REPO
 
 
+NATIVE_TIME_LIMIT = 3.0
+
+
 class NStream(io.BytesIO):
     """io.BytesIO with the contract-view attributes pos / B / length"""
 
@@ -352,10 +355,30 @@ def run_once(c, func, g, exprs):
     is_gen = bool(c.each_yield) or c.yield_shape is not None
     exc = None
     result = None
+    import signal
+
+    class _Timeout(BaseException):
+        pass
+
+    def _alarm(signum, frame):
+        raise _Timeout()
+    prev = signal.signal(signal.SIGALRM, _alarm)
+    signal.setitimer(signal.ITIMER_REAL, NATIVE_TIME_LIMIT)
     try:
-        result = func(**args)
-        if is_gen or hasattr(result, '__next__'):
-            result = list(result)
+        try:
+            result = func(**args)
+            if is_gen or hasattr(result, '__next__'):
+                import itertools
+                result = list(itertools.islice(result, 200000))
+        finally:
+            signal.setitimer(signal.ITIMER_REAL, 0)
+            signal.signal(signal.SIGALRM, prev)
+    except _Timeout:
+        return dict(status='violation', clause='termination', input=inp,
+                    observed='the real function did not return within %.0f s on this input' % NATIVE_TIME_LIMIT,
+                    expected='termination (variant)')
+    except MemoryError:
+        return dict(status='skip')
     except Exception as e:
         exc = e
     from .interp import EXC_CLASSES
@@ -438,6 +461,8 @@ def clause_of(obname):
     m = re.search(r':(raises-iff\[\w+\]|raises-only-if\[\w+\]|safety:no-[\w.]+)@', obname)
     if m:
         return m.group(1)
+    if ':variant@' in obname:
+        return 'termination'
     return None
 
 
@@ -458,7 +483,16 @@ def post_process(c, d, tier):
     stats = dict(available=True, runs=0, ok=0, skip=0, violations=0, unavailable=0)
     found = {}          # clause -> violation record
 
+    import time as _time
+    t_start = _time.time()
+    budget = 25.0 if tier == 'quick' else 240.0
+
+    def exhausted():
+        return _time.time() - t_start > budget or 'termination' in found
+
     def attempt(model, rng):
+        if exhausted():
+            return dict(status='skip')
         g = Gen(model, rng)
         r = run_once(c, func, g, exprs)
         stats['runs'] += 1
@@ -493,6 +527,8 @@ def post_process(c, d, tier):
         n *= 4
     if stats['runs'] == 0 or stats['unavailable'] < stats['runs']:
         for i in range(n):
+            if exhausted():
+                break
             r = attempt(None, rng)
             if r['status'] == 'unavailable':
                 break
